@@ -37,6 +37,7 @@ import (
 	"time"
 
 	"github.com/logrange/logrange/api"
+	"github.com/logrange/logrange/pkg/cursor"
 	"github.com/logrange/logrange/pkg/lql"
 	"github.com/logrange/logrange/pkg/model"
 	"github.com/logrange/logrange/pkg/model/tag"
@@ -55,7 +56,10 @@ var (
 	res  *vh.Result
 )
 
-const evTimeout = 10 * time.Second
+const evTimeout = 4 * time.Second
+
+// deadlocks counts the schedules that froze the tag index; after a few of them the section stops (each costs a time-out)
+var deadlocks int32
 
 // ---------------------------------------------------------------------------------------------
 // engine: the real service, one critical section per step
@@ -149,6 +153,7 @@ type engine struct {
 	impl      []string
 	steps     []step
 	dead      bool
+	fmu       sync.Mutex
 	fails     []vh.SpecFailure
 	sec       string
 }
@@ -167,6 +172,8 @@ func newEngine(k int, sec string) *engine {
 func (e *engine) line(l, want string) { e.lines = append(e.lines, l); e.impl = append(e.impl, want) }
 
 func (e *engine) specFail(kind, what, impl, spec string) {
+	e.fmu.Lock()
+	defer e.fmu.Unlock()
 	e.fails = append(e.fails, vh.SpecFailure{Section: e.sec, Kind: kind, Impl: impl, Spec: spec, What: what})
 }
 
@@ -229,7 +236,8 @@ func (e *engine) await(t *task) event {
 		return ev
 	case <-time.After(evTimeout):
 		e.dead = true
-		e.specFail("hang", "a caller neither returned, nor called the visitor, nor reached a wait loop within 10 s", "no event", "progress")
+		atomic.AddInt32(&deadlocks, 1)
+		e.specFail("deadlock", "a caller neither returned, nor called the visitor, nor reached a wait loop within 4 s: the tag index is frozen", "no event", "progress")
 		return event{kind: evTimeoutK}
 	}
 }
@@ -247,7 +255,8 @@ func (e *engine) resumeTask(t *task, v bool) event {
 	case t.resume <- v:
 	case <-time.After(evTimeout):
 		e.dead = true
-		e.specFail("hang", "a parked caller did not take its wake-up", "stuck", "progress")
+		atomic.AddInt32(&deadlocks, 1)
+		e.specFail("deadlock", "a parked caller did not take its wake-up", "stuck", "progress")
 		return event{kind: evTimeoutK}
 	}
 	return e.await(t)
@@ -396,8 +405,27 @@ func errName(err error) string {
 	return "err:" + err.Error()
 }
 
-// exec performs one step; false = not applicable (skipped)
+// exec performs one step under a watchdog: every call into the tag index made by a step (also the non-blocking ones:
+// Release, LockExclusively, Delete, the state inspection) must return; a step that does not come back within the limit is
+// a spec failure `deadlock` (the replay is the schedule so far), and the service instance is abandoned, never touched again.
 func (e *engine) exec(st step) bool {
+	if e.dead {
+		return false
+	}
+	ok := false
+	if !vh.WithTimeout(2*evTimeout+time.Second, func() { ok = e.exec1(st) }) {
+		if !e.dead {
+			e.dead = true
+			atomic.AddInt32(&deadlocks, 1)
+			e.specFail("deadlock", fmt.Sprintf("step %+v did not return within %v: the tag index is frozen (a mutex is held for ever)", st, 2*evTimeout+time.Second), "no return", "every critical section ends")
+		}
+		return true
+	}
+	return ok
+}
+
+// exec1 performs one step; false = not applicable (skipped)
+func (e *engine) exec1(st step) bool {
 	if e.dead || !e.applicable(st) {
 		return false
 	}
@@ -857,17 +885,27 @@ func runSchedule(c schedCase, rng *vh.Rng, n int, sec *vh.Section) schedOut {
 	}
 	nGen := len(e.steps)
 	if !e.dead {
-		e.finish()
+		if !vh.WithTimeout(60*time.Second, e.finish) && !e.dead {
+			e.dead = true
+			atomic.AddInt32(&deadlocks, 1)
+			e.specFail("deadlock", "bringing the schedule to quiescence did not finish within 60 s: the tag index is frozen", "no return", "every critical section ends")
+		}
 	}
 	if e.dead {
 		e.abandon()
 	}
-	c.Steps = e.steps[:nGen]
-	for i := range e.fails {
-		e.fails[i].Input = c
+	if nGen > len(e.steps) {
+		nGen = len(e.steps)
+	}
+	c.Steps = append([]step{}, e.steps[:nGen]...)
+	e.fmu.Lock()
+	fails := append([]vh.SpecFailure{}, e.fails...)
+	e.fmu.Unlock()
+	for i := range fails {
+		fails[i].Input = c
 	}
 	kinds := map[string]bool{}
-	for _, s := range e.steps[:nGen] {
+	for _, s := range c.Steps {
 		res.Dist(sec, s.Op)
 		kinds[s.Op] = true
 	}
@@ -884,7 +922,11 @@ func runSchedule(c schedCase, rng *vh.Rng, n int, sec *vh.Section) schedOut {
 		key = fmt.Sprint(c.Steps)
 	}
 	res.Eval(sec, key)
-	return schedOut{c: c, lines: e.lines, impl: e.impl, fails: e.fails}
+	nl := len(e.lines)
+	if len(e.impl) < nl {
+		nl = len(e.impl)
+	}
+	return schedOut{c: c, lines: append([]string{}, e.lines[:nl]...), impl: append([]string{}, e.impl[:nl]...), fails: fails}
 }
 
 // compare the recorded answers with the model's; the first differing line of a schedule is a mismatch. A spec
@@ -945,6 +987,10 @@ func sectionSchedules(rng *vh.Rng) {
 		outs = outs[:0]
 	}
 	for i := 0; i < n; i++ {
+		if atomic.LoadInt32(&deadlocks) >= 3 {
+			res.Note("schedules: stopped after %d of %d schedules: %d of them froze the tag index", i, n, deadlocks)
+			break
+		}
 		c := schedCase{Actors: rng.Range(2, 4), Tags: rng.Range(1, 3)}
 		o := runSchedule(c, rng, rng.Range(4, maxSteps), sec)
 		if i < 2 {
@@ -1131,19 +1177,27 @@ type callersCase struct {
 
 var callerProgs = []string{"write0", "write1", "write2", "query", "queryOne", "getjournals", "getjournals-limit", "getjournal",
 	"partitions", "info", "truncate-dry", "truncate", "truncate-empty", "show", "describe",
-	"truncate-dry-global", "truncate-global", "truncate-dry-global-lql", "truncate-global-lql", "getjournals-fail"}
+	"truncate-dry-global", "truncate-global", "truncate-dry-global-lql", "truncate-global-lql",
+	"hold", "hold", "unhold", "cursor-open", "cursor-close", "cursor-badpos", "cursor-badpos-cached", "cursor-badpos-rpc", "cursor-badquery", "cursor-toomany",
+	"getjournals-fail"}
 
-func counts(srv *lrsrv.Srv) (string, bool) {
-	bad := false
+// counts compares every partition's reader count with the acquisitions the case itself still holds on purpose
+// (expected; nil = none): "" = fine, else the failure kind (leak: more readers than holders; double-release: fewer,
+// somebody's hold was taken away)
+func counts(srv *lrsrv.Srv, expected map[string]int) (string, string) {
+	kind := ""
 	out := []string{}
 	for _, src := range tindex.VerifSources(srv.TIndex) {
 		r, x, _ := tindex.VerifState(srv.TIndex, src)
-		if r != 0 || x {
-			bad = true
+		w := expected[src]
+		if r > w || x {
+			kind = "leak"
+		} else if r < w && kind == "" {
+			kind = "double-release"
 		}
-		out = append(out, fmt.Sprintf("%d:%s", r, b2s(x)))
+		out = append(out, fmt.Sprintf("%d/%d:%s", r, w, b2s(x)))
 	}
-	return strings.Join(out, " "), bad
+	return strings.Join(out, " "), kind
 }
 
 func runCallers(c callersCase, sec *vh.Section) {
@@ -1174,107 +1228,216 @@ func runCallers(c callersCase, sec *vh.Section) {
 		srv.FlushWait()
 	}
 	write(0)
+	// acquisitions the case keeps on purpose across programs ("another client"): direct holds and an open cached cursor
+	expected := map[string]int{}
+	var holds []string
+	var openCur cursor.Cursor
+	var openDelta map[string]int
+	pv, _ := cursor.ProviderVerifOf(srv.Cursors)
+	qAll := "select from c14 like \"p*\" limit 10"
+	readers := func() map[string]int {
+		m := map[string]int{}
+		for _, src := range tindex.VerifSources(srv.TIndex) {
+			r, _, _ := tindex.VerifState(srv.TIndex, src)
+			m[src] = r
+		}
+		return m
+	}
+	manyMade := false
 	for pi, p := range c.Progs {
 		res.Dist(sec, p)
 		finding := ""
 		modelSame := false
-		pnc := vh.Recover(func() {
-			switch p {
-			case "write0", "write1", "write2":
-				write(int(p[5] - '0'))
-			case "query", "queryOne":
-				q := "select from c14 like \"p*\" limit 10"
-				if p == "queryOne" {
-					q = "select from c14=p0 limit 1"
-				}
-				var qr api.QueryResult
-				srv.Client.Query(ctx, &api.QueryRequest{Query: q, Limit: 10}, &qr)
-			case "getjournals":
-				m, err := srv.Parts.GetJournals(ctx, all, 50)
-				if err == nil {
-					for _, j := range m {
-						if r, _, _ := tindex.VerifState(srv.TIndex, j.Name()); r != 1 {
-							res.SpecFail(vh.SpecFailure{Section: "callers", Kind: "leak", Input: c, Impl: fmt.Sprintf("readers=%d while GetJournals' result is held", r), Spec: "1", What: "a journal returned by GetJournals is not acquired exactly once"})
+		pnc := ""
+		finished := vh.WithTimeout(30*time.Second, func() {
+			pnc = vh.Recover(func() {
+				switch p {
+				case "hold":
+					// another client acquires a partition and keeps it
+					srcs := tindex.VerifSources(srv.TIndex)
+					if len(srcs) > 0 {
+						src := srcs[pi%len(srcs)]
+						if _, _, err := srv.Parts.GetJournal(ctx, src); err == nil {
+							holds = append(holds, src)
+							expected[src]++
 						}
 					}
-					for _, j := range m {
-						srv.Parts.Release(j.Name())
+				case "unhold":
+					if n := len(holds); n > 0 {
+						src := holds[n-1]
+						holds = holds[:n-1]
+						srv.Parts.Release(src)
+						expected[src]--
 					}
-				}
-			case "getjournals-limit":
-				srv.Parts.GetJournals(ctx, all, 1) // "limit exceeds" as soon as one journal is collected
-			case "getjournals-fail":
-				srcs := tindex.VerifSources(srv.TIndex)
-				if len(srcs) == 0 {
-					return
-				}
-				fc.mu.Lock()
-				fc.fail[srcs[0]] = true
-				fc.mu.Unlock()
-				one, _ := lql.ParseSource("c14 like \"p*\"")
-				m, err := srv.Parts.GetJournals(ctx, one, 50)
-				fc.mu.Lock()
-				fc.fail = map[string]bool{}
-				fc.mu.Unlock()
-				if err == nil {
-					for _, j := range m {
-						srv.Parts.Release(j.Name())
+				case "cursor-open":
+					// another client's request with a cached cursor (WaitTimeout > 0): its partitions stay acquired
+					if openCur == nil {
+						before := readers()
+						cu, err := srv.Cursors.GetOrCreate(ctx, cursor.State{Query: qAll}, true)
+						if err == nil && cu != nil && !cursor.IsEmptyCurVerif(cu) {
+							openCur, openDelta = cu, map[string]int{}
+							for src, r := range readers() {
+								if d := r - before[src]; d != 0 {
+									openDelta[src] = d
+									expected[src] += d
+									if d != 1 {
+										res.SpecFail(vh.SpecFailure{Section: "callers", Kind: "leak", Input: callersCase{Progs: c.Progs[:pi+1]}, Impl: fmt.Sprintf("readers moved by %d", d), Spec: "+1", What: "a new cursor acquires each of its partitions exactly once"})
+									}
+								}
+							}
+						}
 					}
-					return
-				}
-				// class predicate of F15: GetJournals returned the error of Journals.GetOrCreate (visitor aborted)
-				if strings.Contains(err.Error(), "injected GetOrCreate failure") {
-					finding = "F15"
-					// MODEL: the same program in the LTS keeps exactly one acquisition on the failing partition
-					ans, _ := vh.Batch(args.Driver, []string{"reset", "goc 0 7 1", "rel 0 0", "vbegin 1 0 1 7", "vtry 1 0", "vcb 1 0 0", "vend 1", "state"})
-					r, _, _ := tindex.VerifState(srv.TIndex, srcs[0])
-					modelSame = len(ans) == 8 && ans[7] == "0:1:0 holds=1 panicked=0" && r == 1
-				}
-			case "getjournal":
-				srcs := tindex.VerifSources(srv.TIndex)
-				if len(srcs) > 0 {
-					if _, _, err := srv.Parts.GetJournal(ctx, srcs[pi%len(srcs)]); err == nil {
-						srv.Parts.Release(srcs[pi%len(srcs)])
+				case "cursor-close":
+					if openCur != nil {
+						srv.Cursors.Release(ctx, openCur)
+						pv.Age(400 * time.Second) // idle expiry instead of sleeping
+						pv.SweepByTime()
+						for src, d := range openDelta {
+							expected[src] -= d
+						}
+						openCur, openDelta = nil, nil
 					}
+				case "cursor-badpos", "cursor-badpos-cached":
+					// newCursor's error path after the partitions were acquired: the position cannot be applied
+					if cu, err := srv.Cursors.GetOrCreate(ctx, cursor.State{Query: qAll, Pos: "garbage"}, p == "cursor-badpos-cached"); err == nil && cu != nil {
+						srv.Cursors.Release(ctx, cu)
+					}
+				case "cursor-badpos-rpc":
+					// (first in this goroutine, where a panic is recovered and the counts can be looked at: a double release
+					// inside the RPC handler's goroutine would take the whole process down)
+					if cu, err := srv.Cursors.GetOrCreate(ctx, cursor.State{Query: qAll, Pos: "garbage"}, false); err == nil && cu != nil {
+						srv.Cursors.Release(ctx, cu)
+					}
+					if _, kind := counts(srv, expected); kind != "" {
+						return
+					}
+					var qr api.QueryResult
+					srv.Client.Query(ctx, &api.QueryRequest{Query: qAll, Pos: "garbage", Limit: 10}, &qr)
+				case "cursor-badquery":
+					srv.Cursors.GetOrCreate(ctx, cursor.State{Query: "select from from"}, false)
+					srv.Cursors.GetOrCreate(ctx, cursor.State{Query: qAll + " position \"nonsense\""}, false)
+				case "cursor-toomany":
+					// more partitions than a cursor may merge (50): GetJournals' limit path below newCursor
+					if !manyMade {
+						manyMade = true
+						for i := 0; i < 52; i++ {
+							if src, _, err := srv.TIndex.GetOrCreateJournal(fmt.Sprintf("c14=m%d", i)); err == nil {
+								srv.TIndex.Release(src)
+							}
+						}
+					}
+					if cu, err := srv.Cursors.GetOrCreate(ctx, cursor.State{Query: "select from c14 like \"m*\" limit 1"}, false); err == nil && cu != nil {
+						srv.Cursors.Release(ctx, cu)
+					}
+				case "write0", "write1", "write2":
+					write(int(p[5] - '0'))
+				case "query", "queryOne":
+					q := "select from c14 like \"p*\" limit 10"
+					if p == "queryOne" {
+						q = "select from c14=p0 limit 1"
+					}
+					var qr api.QueryResult
+					srv.Client.Query(ctx, &api.QueryRequest{Query: q, Limit: 10}, &qr)
+				case "getjournals":
+					m, err := srv.Parts.GetJournals(ctx, all, 50)
+					if err == nil {
+						for _, j := range m {
+							if r, _, _ := tindex.VerifState(srv.TIndex, j.Name()); r != 1+expected[j.Name()] {
+								res.SpecFail(vh.SpecFailure{Section: "callers", Kind: "leak", Input: c, Impl: fmt.Sprintf("readers=%d while GetJournals' result is held", r), Spec: "1", What: "a journal returned by GetJournals is not acquired exactly once"})
+							}
+						}
+						for _, j := range m {
+							srv.Parts.Release(j.Name())
+						}
+					}
+				case "getjournals-limit":
+					srv.Parts.GetJournals(ctx, all, 1) // "limit exceeds" as soon as one journal is collected
+				case "getjournals-fail":
+					srcs := tindex.VerifSources(srv.TIndex)
+					if len(srcs) == 0 {
+						return
+					}
+					fc.mu.Lock()
+					fc.fail[srcs[0]] = true
+					fc.mu.Unlock()
+					one, _ := lql.ParseSource("c14 like \"p*\"")
+					m, err := srv.Parts.GetJournals(ctx, one, 50)
+					fc.mu.Lock()
+					fc.fail = map[string]bool{}
+					fc.mu.Unlock()
+					if err == nil {
+						for _, j := range m {
+							srv.Parts.Release(j.Name())
+						}
+						return
+					}
+					// class predicate of F15: GetJournals returned the error of Journals.GetOrCreate (visitor aborted)
+					if strings.Contains(err.Error(), "injected GetOrCreate failure") {
+						finding = "F15"
+						// MODEL: the same program in the LTS keeps exactly one acquisition on the failing partition
+						ans, _ := vh.Batch(args.Driver, []string{"reset", "goc 0 7 1", "rel 0 0", "vbegin 1 0 1 7", "vtry 1 0", "vcb 1 0 0", "vend 1", "state"})
+						r, _, _ := tindex.VerifState(srv.TIndex, srcs[0])
+						modelSame = len(ans) == 8 && ans[7] == "0:1:0 holds=1 panicked=0" && r == 1
+					}
+				case "getjournal":
+					srcs := tindex.VerifSources(srv.TIndex)
+					if len(srcs) > 0 {
+						if _, _, err := srv.Parts.GetJournal(ctx, srcs[pi%len(srcs)]); err == nil {
+							srv.Parts.Release(srcs[pi%len(srcs)])
+						}
+					}
+					srv.Parts.GetJournal(ctx, "nosuchsource")
+				case "partitions":
+					srv.Parts.Partitions(ctx, all, 0, 10)
+				case "info":
+					srv.Parts.GetParitionInfo(tagsOf(0))
+					srv.Parts.GetParitionInfo("c14=nosuch")
+				case "truncate-dry":
+					srv.Parts.Truncate(ctx, partition.TruncateParams{DryRun: true, TagsExpr: all, MaxSrcSize: 1}, nil)
+				case "truncate":
+					srv.Parts.Truncate(ctx, partition.TruncateParams{TagsExpr: all, MaxSrcSize: 1}, nil)
+				case "truncate-dry-global":
+					// nothing to cut per partition, but the data base is over its size: the global pass acquires each partition
+					srv.Parts.Truncate(ctx, partition.TruncateParams{DryRun: true, TagsExpr: all, MaxDBSize: 1}, nil)
+				case "truncate-global":
+					srv.Parts.Truncate(ctx, partition.TruncateParams{TagsExpr: all, MaxDBSize: 1}, nil)
+				case "truncate-dry-global-lql":
+					srv.Exec("truncate dryrun maxdbsize 1")
+				case "truncate-global-lql":
+					srv.Exec("truncate maxdbsize 1")
+				case "truncate-empty":
+					// a partition known to the tag index only (size 0): Truncate deletes it from inside its visit
+					if src, _, err := srv.TIndex.GetOrCreateJournal(fmt.Sprintf("c14=pe%d", pi)); err == nil {
+						srv.TIndex.Release(src)
+					}
+					srv.Parts.Truncate(ctx, partition.TruncateParams{TagsExpr: all, MaxSrcSize: 1 << 40}, nil)
+				case "show":
+					srv.Exec("show partitions")
+				case "describe":
+					srv.Exec("describe partition {c14=p0}")
 				}
-				srv.Parts.GetJournal(ctx, "nosuchsource")
-			case "partitions":
-				srv.Parts.Partitions(ctx, all, 0, 10)
-			case "info":
-				srv.Parts.GetParitionInfo(tagsOf(0))
-				srv.Parts.GetParitionInfo("c14=nosuch")
-			case "truncate-dry":
-				srv.Parts.Truncate(ctx, partition.TruncateParams{DryRun: true, TagsExpr: all, MaxSrcSize: 1}, nil)
-			case "truncate":
-				srv.Parts.Truncate(ctx, partition.TruncateParams{TagsExpr: all, MaxSrcSize: 1}, nil)
-			case "truncate-dry-global":
-				// nothing to cut per partition, but the data base is over its size: the global pass acquires each partition
-				srv.Parts.Truncate(ctx, partition.TruncateParams{DryRun: true, TagsExpr: all, MaxDBSize: 1}, nil)
-			case "truncate-global":
-				srv.Parts.Truncate(ctx, partition.TruncateParams{TagsExpr: all, MaxDBSize: 1}, nil)
-			case "truncate-dry-global-lql":
-				srv.Exec("truncate dryrun maxdbsize 1")
-			case "truncate-global-lql":
-				srv.Exec("truncate maxdbsize 1")
-			case "truncate-empty":
-				// a partition known to the tag index only (size 0): Truncate deletes it from inside its visit
-				if src, _, err := srv.TIndex.GetOrCreateJournal(fmt.Sprintf("c14=pe%d", pi)); err == nil {
-					srv.TIndex.Release(src)
-				}
-				srv.Parts.Truncate(ctx, partition.TruncateParams{TagsExpr: all, MaxSrcSize: 1 << 40}, nil)
-			case "show":
-				srv.Exec("show partitions")
-			case "describe":
-				srv.Exec("describe partition {c14=p0}")
-			}
+			})
 		})
-		if pnc != "" {
-			res.SpecFail(vh.SpecFailure{Section: "callers", Kind: "panic", Input: c, Impl: pnc, Spec: "no panic", What: "caller program " + p + " panicked"})
+		if !finished {
+			res.SpecFail(vh.SpecFailure{Section: "callers", Kind: "deadlock", Input: callersCase{Progs: c.Progs[:pi+1]}, Impl: "caller program " + p + " did not return within 30 s", Spec: "returns", What: "a caller program hangs: the tag index is frozen (a mutex is held for ever)"})
 			return
 		}
-		if st, bad := counts(srv); bad {
-			f := vh.SpecFailure{Section: "callers", Kind: "leak", Input: callersCase{Progs: c.Progs[:pi+1]}, Impl: st, Spec: "all readers 0, nothing exclusive",
-				What: "after caller program " + p + " finished, a partition is still acquired or exclusively locked", ImplEqModel: modelSame}
+		if pnc != "" {
+			res.SpecFail(vh.SpecFailure{Section: "callers", Kind: "panic", Input: callersCase{Progs: c.Progs[:pi+1]}, Impl: pnc, Spec: "no panic", What: "caller program " + p + " panicked"})
+			return
+		}
+		st, kind := "", ""
+		if !vh.WithTimeout(10*time.Second, func() { st, kind = counts(srv, expected) }) {
+			res.SpecFail(vh.SpecFailure{Section: "callers", Kind: "deadlock", Input: callersCase{Progs: c.Progs[:pi+1]}, Impl: "the tag index does not answer after caller program " + p, Spec: "answers", What: "the tag index is frozen after a caller program (a mutex is held for ever)"})
+			return
+		}
+		if kind != "" {
+			what := "after caller program " + p + " finished, a partition is still acquired (readers/holders) or exclusively locked"
+			if kind == "double-release" {
+				what = "after caller program " + p + " finished, a partition has fewer readers than holders: somebody else's acquisition was released"
+			}
+			f := vh.SpecFailure{Section: "callers", Kind: kind, Input: callersCase{Progs: c.Progs[:pi+1]}, Impl: st, Spec: "readers = the holds kept on purpose, nothing exclusive",
+				What: what, ImplEqModel: modelSame}
 			if finding != "" && modelSame {
 				f.Finding = finding
 				f.Model = "0:1:0 holds=1"
@@ -1292,7 +1455,7 @@ func runCallers(c callersCase, sec *vh.Section) {
 
 func sectionCallers(rng *vh.Rng) {
 	sec := res.Section("callers", "spec-search",
-		"sequences of the real caller programs on the in-process server (RPC Write and Query, partition.Service.GetJournals incl. limit exceeded and an injected Journals.GetOrCreate failure, GetJournal, Partitions, GetParitionInfo, Truncate dry/real/deleting an empty partition/global pass (MAXDBSIZE exceeded) dry and real through the service and through the TRUNCATE statement, SHOW PARTITIONS, DESCRIBE PARTITION): after every program all readers are 0 and nothing is exclusively locked; non-trivial = at least 3 programs, distinct by program list")
+		"sequences of the real caller programs on the in-process server (RPC Write and Query, partition.Service.GetJournals incl. limit exceeded and an injected Journals.GetOrCreate failure, GetJournal, Partitions, GetParitionInfo, cursor creation through the provider and over RPC incl. its failures (position that cannot be applied — un-cached, cached, over RPC —, unparsable query, more than 50 partitions) with and without another client holding the partitions (a direct hold, an open cached cursor), Truncate dry/real/deleting an empty partition/global pass (MAXDBSIZE exceeded) dry and real through the service and through the TRUNCATE statement, SHOW PARTITIONS, DESCRIBE PARTITION): after every program every reader count equals the holds kept on purpose (0 without them) and nothing is exclusively locked, every program returns within 30 s; non-trivial = at least 3 programs, distinct by program list")
 	var cases []callersCase
 	for _, f := range vh.CorpusFiles(args.Corpus) {
 		var rp struct {
@@ -1527,7 +1690,7 @@ func stressChild(rng *vh.Rng) {
 		res.Done(sec)
 		return
 	}
-	if st, bad := counts(srv); bad {
+	if st, kind := counts(srv, nil); kind != "" {
 		res.SpecFail(vh.SpecFailure{Section: "stress", Kind: "leak", Input: map[string]interface{}{"seed": args.Seed}, Impl: st, Spec: "all readers 0", What: "after the race stopped a partition is still acquired or exclusively locked"})
 	}
 	for _, src := range tindex.VerifSources(srv.TIndex) {
